@@ -615,6 +615,12 @@ func (es *SearchEngineState) RETURN() {
 
 func (es *SearchEngineState) CHECKPOINT() {
 	checkpoint := es.Copy()
+	// a snapshot must not share variable bindings with the path that keeps running
+	checkpoint.environment = es.environment.Copy().Hashmap()
+	for i := 0; i < int(checkpoint.loopStack.Size()); i++ {
+		loopState := checkpoint.loopStack.Index(i)
+		loopState.variables = loopState.variables.Copy().Hashmap()
+	}
 	es.backtrack.Push(*checkpoint)
 }
 
